@@ -61,6 +61,11 @@ def obligations(ctx):
                       unwind=40, family="vec_znx_normalize_base2k"))
         obs.append(Ob("coeff/range-normalize/res=%d/a=%d" % (rsz, asz), c05.H, "h_vec", {"K": 17, "NN": 2, "RSZ": rsz, "RSL": 3, "VIA": 2, "RB": 1, "RE": 1 + 2 * asz if asz else 1, "RS": 2, "BIGSZ": 6},
                       c05.LIBS, unwind=60, family="vec_znx_big_range_normalize_base2k"))
+    # the real q120 NTT table builders (concrete execution under cbmc) and their delete functions, N = 1 included
+    for nn in (1, 2, 4):
+        obs.append(core.Ob("leak/q120_ntt_precomp/n=%d" % nn, "leak_ntt.c", "h_leak_ntt", {"NN": nn}, ["q120/q120_ntt.c", "commons.c", "commons_private.c"], unwind=140,
+                           flags=["--memory-leak-check"], family="new/delete pairs", timeout=900,
+                           desc="q120_new_ntt_bb_precomp / q120_new_intt_bb_precomp executed for real (ceil(log2()) modelled exactly), then the delete functions: no heap object is live at the end"))
     # new_* / delete_* pairs release what they allocate (cbmc --memory-leak-check)
     for kind in (0, 1):
         for (nn, avx) in ((4, 0), (8, 1), (16, 1)):
